@@ -612,15 +612,19 @@ func (x *Exec) callFunc(st *State, call *ast.CallExpr, fn *types.Func, recv *Val
 		x.havocAll(st, "call to "+key+" (no contract)")
 	} else {
 		// library call: havoc what it can reach through pointer arguments
-		all := args
+		all := append([]Val{}, args...)
 		if recv != nil {
 			all = append([]Val{*recv}, args...)
 		}
+		// pointers passed as interface{} (json.Unmarshal(data, &v), Decode(&v), ...) count too
+		all = append(all, x.rawArgs...)
 		for _, a := range all {
 			if t, ok := a.GoT.(types.Type); ok && t != nil {
 				if pt, isPtr := t.Underlying().(*types.Pointer); isPtr {
-					x.havocKey(st, heapKey(x.vc.sortOf(pt.Elem())))
-					x.vc.note("library call " + key + ": heap of " + pt.Elem().String() + " havocked")
+					// the library may write the object the pointer refers to (not other objects of that type)
+					nv := x.havocVal(st, "written", pt.Elem())
+					x.storeRef(st, a, pt.Elem(), nv)
+					x.vc.note("library call " + key + ": the " + pt.Elem().String() + " object passed by pointer is unconstrained afterwards")
 				}
 			}
 		}
